@@ -99,7 +99,7 @@ theorem abs_ptOf_le {n : Nat} : ∀ (os : List (List Int)) (r : α), 0 < r → S
 
 /-! ### offsets of a digit list -/
 
-theorem signList_signs {n : Nat} (hn : 2 ≤ n ∧ n ≤ 5) : ∀ (ds : List Nat) (s : St),
+theorem signList_signs {n : Nat} (hn : Ev.DimOK n) : ∀ (ds : List Nat) (s : St),
     Inv.Valid n s → validDigits n ds → SignList n (signs n s ds)
   | [], _, _, _ => by simp [SignList]
   | d :: ds, s, hs, hd => by
@@ -109,7 +109,7 @@ theorem signList_signs {n : Nat} (hn : 2 ≤ n ∧ n ≤ 5) : ∀ (ds : List Nat
       signList_signs hn ds _ (Inv.step_valid hn hs hd.1) hd.2⟩
 
 /-- coordinates of `ptOf` of the offsets of a digit list, via a1's `Yc` -/
-theorem getElem_ptOf_signs {n : Nat} (hn : 2 ≤ n ∧ n ≤ 5) : ∀ (ds : List Nat) (s : St) (r : α),
+theorem getElem_ptOf_signs {n : Nat} (hn : Ev.DimOK n) : ∀ (ds : List Nat) (s : St) (r : α),
     Inv.Valid n s → validDigits n ds → ∀ (i : Nat) (hi : i < (ptOf n (signs n s ds) r).length),
       (ptOf n (signs n s ds) r)[i] = (Yc n s ds i : α) * (r / 2^ds.length)
   | [], s, r, _, _, i, hi => by simp [ptOf]
@@ -128,10 +128,10 @@ theorem getElem_ptOf_signs {n : Nat} (hn : 2 ≤ n ∧ n ≤ 5) : ∀ (ds : List
     field_simp
 
 /-- the scaled integer cell centre `cubeY n ds / 2^(m+1)` is `ptOf` with `r = 1/2` -/
-theorem cubeY_map_eq_ptOf {n : Nat} (hn : 2 ≤ n ∧ n ≤ 5) (ds : List Nat) (hd : validDigits n ds) :
+theorem cubeY_map_eq_ptOf {n : Nat} (hn : Ev.DimOK n) (ds : List Nat) (hd : validDigits n ds) :
     (cubeY n ds).map (fun (Y : Int) => (Y : α) / 2^(ds.length + 1)) =
       ptOf n (signs n (St.init n) ds) (1 / 2) := by
-  have hv := Inv.valid_init n (by omega)
+  have hv := Inv.valid_init n (by have := hn.pos; omega)
   have hsl := signList_signs hn ds _ hv hd
   have hc := cubeY_getI_of_lengths n ds (fun o ho => (hsl o ho).1)
   have hlp := length_ptOf (α := α) _ (1 / 2) hsl
